@@ -1197,12 +1197,14 @@ func (pf *pfunc) noOverflow(n *vn) bool {
 		return false
 	}
 	switch b.Kind() {
-	case types.Int, types.Int64, types.Int32, types.UntypedInt:
+	case types.Int, types.Int64, types.UntypedInt:
 		return true
-	case types.Uint, types.Uint64, types.Uint32, types.Uintptr:
+	case types.Uint, types.Uint64, types.Uintptr:
 		// unsigned subtraction can wrap: exact only for ADD/MUL
 		return n.tok != token.SUB
-	case types.Uint8, types.Uint16, types.Int8, types.Int16:
+	case types.Uint8, types.Uint16, types.Int8, types.Int16, types.Uint32, types.Int32:
+		// 32-bit quantities are decoded from untrusted bytes (binary.LittleEndian.Uint32): 5 + l wraps for
+		// l near 2^32. Exact only where the facts at hand show the result fits (pfacts: "arithmetic does not wrap")
 		return false
 	}
 	return false
